@@ -24,6 +24,30 @@ Fixpoint pairwise_disjoint (ks : list (list string)) : bool :=
   | k :: r => forallb (disjoint k) r && pairwise_disjoint r
   end.
 
+(* can [axes] be split into blocks each of which has something registered?  (fuel: the
+   number of axes) *)
+Fixpoint coverable (fuel : nat) (reg : registry) (axes : list string) : bool :=
+  match axes with
+  | [] => true
+  | _ =>
+    match fuel with
+    | O => false
+    | S fuel' =>
+      existsb (fun kl : list string * list varinfo =>
+                 let k := fst kl in
+                 negb (Nat.eqb (List.length k) 0) && subsetS k axes &&
+                 coverable fuel' reg (filter (fun a => negb (memS a k)) axes)) reg
+    end
+  end.
+
+(* "largest block first": no registered key inside the requested axes, larger than the
+   first block used, could have started a partition *)
+Definition no_larger_start (reg : registry) (axes : list string) (first_len : nat) : bool :=
+  negb (existsb (fun kl : list string * list varinfo =>
+                   let k := fst kl in
+                   Nat.ltb first_len (List.length k) && subsetS k axes &&
+                   coverable (List.length axes) reg (filter (fun a => negb (memS a k)) axes)) reg).
+
 Definition admissible (reg : registry) (array_dims axes : list string) (e : mexpr) : bool :=
   match find_key axes reg with
   | Some l =>
@@ -54,6 +78,7 @@ Definition admissible (reg : registry) (array_dims axes : list string) (e : mexp
       | Some kvs =>
         let keys := map fst kvs in
         set_eqb (flat_map (fun k => k) keys) axes && pairwise_disjoint keys &&
+        no_larger_start reg axes (List.length (hd [] keys)) &&
         forallb (fun k => Nat.leb (List.length k) (List.length (hd [] keys))) keys &&
         forallb (fun fk : factor * (list string * varinfo) =>
                    if f_interp (fst fk)
